@@ -2,6 +2,8 @@
 
 package verifrt
 
+import "sync"
+
 // Reader is installed into crypto/rand.Reader: plan-determined byte stream,
 // plan-determined chunk sizes (short reads), a scheduling point after every
 // chunk, and a log of which task's which call received every byte.
@@ -12,6 +14,8 @@ type Reader struct {
 	cpos   int
 	Pos    uint64
 	Log    []ReadRec
+	Shared bool // World C: handlers run on real goroutines between barriers
+	mu     sync.Mutex
 }
 
 type ReadRec struct {
@@ -95,7 +99,13 @@ func (r *Reader) Read(p []byte) (int, error) {
 	if len(p) == 0 {
 		return 0, nil
 	}
+	if r.Shared {
+		r.mu.Lock()
+	}
 	off, n := r.next(len(p))
+	if r.Shared {
+		r.mu.Unlock()
+	}
 	for i := 0; i < n; i++ {
 		p[i] = r.ByteAt(off + uint64(i))
 	}
